@@ -44,7 +44,7 @@ func c17Grammars(tier string) []*corpus.Grammar {
 	if tier == "thorough" {
 		return all
 	}
-	want := map[string]bool{"calc": true, "errdeep": true, "usercontext": true, "nullable": true, "deep": true, "lexonly": true, "sr": true, "stmtexpr": true, "nolexer": true, "scripts": true, "keywords": true}
+	want := map[string]bool{"calc": true, "errdeep": true, "usercontext": true, "nullable": true, "deep": true, "lexonly": true, "sr": true, "stmtexpr": true, "nolexer": true, "scripts": true, "keywords": true, "errrec": true}
 	var out []*corpus.Grammar
 	for _, g := range all {
 		if want[g.ID] {
@@ -176,6 +176,29 @@ func RunC17(c *Ctx) error {
 				job := harness.Job{ID: len(jobs), Kind: "c17", Variant: v.Name, Knob: stackKnobs[r.Intn(len(stackKnobs))]}
 				for t := 0; t < nt; t++ {
 					job.Tasks = append(job.Tasks, harness.TaskSpec{Ops: pool.taskOps(r.Fork("t"))})
+				}
+				if k%8 == 5 && hasErrorAlt(drv.Grammar) {
+					// an error storm: every task parses inputs with many syntax errors at once
+					// (recovery counters, budgets, error registries)
+					for t := range job.Tasks {
+						var ops []harness.Op
+						for q := 0; q < 2; q++ {
+							s := prng.Pick(r, pool.valid)
+							toks := drv.Grammar.Mutate(r, s.Tokens, 8+r.Intn(10))
+							txt, laid := drv.Grammar.Layout(r, toks)
+							ops = append(ops, harness.Op{Op: "parse", In: tokensInput(txt, laid, !drv.HasLexer, "bad")})
+						}
+						job.Tasks[t].Ops = ops
+					}
+				}
+				if k%8 == 3 && drv.HasLexer && len(pool.valid) > 0 {
+					// every task also lexes and parses ONE shared (erroneous) input buffer: lexers
+					// and error formatting may only read the source they are given
+					in := pool.badInput(r, false)
+					for t := range job.Tasks {
+						cp := *in
+						job.Tasks[t].Ops = append([]harness.Op{{Op: "parse", In: &cp}}, job.Tasks[t].Ops...)
+					}
 				}
 				perTaskSpelling(job.Tasks)
 				job.Schedule = c17Schedule(r, nt)
